@@ -4,7 +4,14 @@ pub struct CtOptionScalar { pub o: Option<Scalar> }
 impl From<CtOptionScalar> for Option<Scalar> {
     fn from(c: CtOptionScalar) -> (r: Option<Scalar>) ensures r == c.o { c.o }
 }
+pub uninterp spec fn mod_order32(b: Seq<u8>) -> Scalar;
 impl Scalar {
+    // Scalar::from_bytes_mod_order: reduction of any 32-byte string (accepts non-canonical encodings; present so that a decoder using it is
+    // visible to the contracts instead of being a construct the unit cannot express)
+    #[verifier::external_body]
+    pub fn from_bytes_mod_order(bytes: [u8; 32]) -> (r: Scalar)
+        ensures r == mod_order32(bytes@), is_canonical(bytes@) ==> scalar_bytes(r) == bytes@
+    { unimplemented!() }
     #[verifier::external_body]
     pub fn from_canonical_bytes(bytes: [u8; 32]) -> (r: CtOptionScalar)
         ensures r.o is Some <==> is_canonical(bytes@), r.o is Some ==> scalar_bytes(r.o->Some_0) == bytes@
